@@ -2,6 +2,7 @@ package c02
 
 import (
 	"fmt"
+	"os"
 	"strings"
 	"testing/synctest"
 	"time"
@@ -19,7 +20,13 @@ type ConcScenario struct {
 	Running bool     // T1 is running at the beginning
 	Ops     []string // control operations on T1 in order: start stop delete
 	Writes  int
+	// FailOther: T1 is a task that fails at run time (two httpOut nodes with one endpoint: the second cannot register
+	// its route) and stays registered, as a failed task does until somebody stops it
+	FailOther bool
+	Warm      int // points written (and settled, default schedule) before the explored part: lets the failure climb to the input edge
 }
+
+const failScript = "var f0 = stream|from().measurement('m1')\nf0|log().prefix('T1.0')\nf0|httpOut('dup')\nf0|httpOut('dup')\n"
 
 func concScenarios() []ConcScenario {
 	return []ConcScenario{
@@ -28,6 +35,9 @@ func concScenarios() []ConcScenario {
 		{Name: "start-other", Steady: "m1+all", Other: "m1", Running: false, Ops: []string{"start"}, Writes: 3},
 		{Name: "stop-start-other", Steady: "m1", Other: "m1+m2", Running: true, Ops: []string{"stop", "start"}, Writes: 3},
 		{Name: "start-delete-other", Steady: "all", Other: "all", Running: false, Ops: []string{"start", "delete"}, Writes: 3},
+		// a neighbour that names the measurement and has failed: its input edge is aborted but still registered
+		{Name: "failed-neighbour", Steady: "all", Other: "m1", Running: true, FailOther: true, Warm: 6, Writes: 3},
+		{Name: "failed-neighbour-then-stop", Steady: "m1+all", Other: "m1", Running: true, FailOther: true, Warm: 6, Ops: []string{"stop"}, Writes: 3},
 	}
 }
 
@@ -48,20 +58,32 @@ func concHarness(sc ConcScenario) vsched.Harness {
 					return
 				}
 				env.TM.DefaultRetentionPolicy = "rp1"
+				env.TM.HTTPDService = kit.NewStrictHTTPD()
 				st, ot := shapes[sc.Steady], shapes[sc.Other]
+				otherScript := ot.script("T1")
+				if sc.FailOther {
+					otherScript = failScript
+				}
 				if _, setupErr = env.Start("T0", st.script("T0"), kapacitor.StreamTask, st.dbrps()); setupErr != nil {
 					return
 				}
 				if sc.Running {
-					if _, setupErr = env.Start("T1", ot.script("T1"), kapacitor.StreamTask, ot.dbrps()); setupErr != nil {
+					if _, setupErr = env.Start("T1", otherScript, kapacitor.StreamTask, ot.dbrps()); setupErr != nil {
 						return
 					}
 				}
 				vsched.Idle()
+				for i := 1; i <= sc.Warm; i++ {
+					p := kit.MkPoint("m1", nil, map[string]any{"k": int64(1), "seq": int64(i)}, kit.T0.Add(time.Duration(i)*time.Second))
+					if err := env.Write("db1", "rp1", p); err == nil {
+						acked++
+					}
+					vsched.Idle()
+				}
 				vsched.NoBranch(false)
 				done := make(chan struct{}, 2)
 				vsched.Go(func() { // writer
-					for i := 1; i <= sc.Writes; i++ {
+					for i := sc.Warm + 1; i <= sc.Warm+sc.Writes; i++ {
 						p := kit.MkPoint("m1", nil, map[string]any{"k": int64(1), "seq": int64(i)}, kit.T0.Add(time.Duration(i)*time.Second))
 						if err := env.Write("db1", "rp1", p); err == nil {
 							acked++
@@ -75,7 +97,7 @@ func concHarness(sc ConcScenario) vsched.Harness {
 						var err error
 						switch op {
 						case "start":
-							_, err = env.Start("T1", ot.script("T1"), kapacitor.StreamTask, ot.dbrps())
+							_, err = env.Start("T1", otherScript, kapacitor.StreamTask, ot.dbrps())
 						case "stop":
 							err = env.TM.StopTask("T1")
 						case "delete":
@@ -106,7 +128,7 @@ func concHarness(sc ConcScenario) vsched.Harness {
 					x.Key, x.Problem = "conc-"+x.S.Verdict, fmt.Sprintf("%s: schedule ended with %s\n%s", sc.Name, x.S.Verdict, trim(x.S.Detail, 2500))
 					return
 				}
-				if len(ctlErrs) > 0 {
+				if len(ctlErrs) > 0 && !sc.FailOther {
 					x.Key, x.Problem = "control-error", fmt.Sprintf("%s: %v", sc.Name, ctlErrs)
 					return
 				}
@@ -146,10 +168,16 @@ func concHarness(sc ConcScenario) vsched.Harness {
 					}
 				}
 				for _, e := range env.Diag.ErrorsCopy() {
+					if sc.FailOther && e.Task == "T1" {
+						continue // the failed task reports its failure
+					}
 					x.Key, x.Problem = "node-error", fmt.Sprintf("%s: %+v", sc.Name, e)
 					return
 				}
 				x.Outcome = strings.Join(outs, " ")
+				if os.Getenv("VERIF_DEBUG") != "" {
+					fmt.Fprintf(os.Stderr, "DEBUG %s: outs=%v acked=%d errors=%+v\n", sc.Name, outs, acked, env.Diag.ErrorsCopy())
+				}
 			}
 			return body, check
 		},
